@@ -98,7 +98,8 @@ func c20GenEntry(w *simrt.Stream, i int) c20Entry {
 	switch w.Draw(6) {
 	case 0:
 		e.Good, e.BadKind = false, "unknown-method"
-		e.Call = fmt.Sprintf("target.TargetService.Nope%d", i)
+		// (a few names only, so that the same unknown method often comes twice in a row on one instance)
+		e.Call = "target.TargetService." + []string{"Nope", "Helo", fmt.Sprintf("Nope%d", i)}[w.Draw(3)]
 	case 1:
 		e.Good, e.BadKind = false, "ill-typed-payload"
 		switch e.Method {
